@@ -1,0 +1,109 @@
+//! Verification hook: a textual dump of the private e-graph state, plus access to a few
+//! crate-private read-only functions.  Compiled only with `--cfg slotted_egraphs_verif`; add-only.
+use crate::*;
+use std::fmt::Write;
+
+pub fn verif_enc_slotmap(m: &SlotMap) -> String {
+    let v: Vec<String> = m
+        .iter()
+        .map(|(k, v)| format!("{}>{}", k.verif_code(), v.verif_code()))
+        .collect();
+    format!("[{}]", v.join("|"))
+}
+
+pub fn verif_enc_applied_id(a: &AppliedId) -> String {
+    format!("@{}{}", a.id.0, verif_enc_slotmap(&a.m))
+}
+
+pub fn verif_enc_node<L: Language>(n: &L) -> String {
+    let v: Vec<String> = n
+        .to_syntax()
+        .into_iter()
+        .map(|e| match e {
+            SyntaxElem::String(s) => format!("s:{s}"),
+            SyntaxElem::Slot(s) => format!("${}", s.verif_code()),
+            SyntaxElem::AppliedId(a) => verif_enc_applied_id(&a),
+        })
+        .collect();
+    v.join(",")
+}
+
+fn enc_slots(s: &SmallHashSet<Slot>) -> String {
+    let mut v: Vec<u32> = s.iter().map(|x| x.verif_code()).collect();
+    v.sort();
+    let v: Vec<String> = v.into_iter().map(|x| x.to_string()).collect();
+    format!("[{}]", v.join("|"))
+}
+
+impl<L: Language, N: Analysis<L>> EGraph<L, N> {
+    /// Dumps the raw state (no path compression is triggered). Lines are sorted.
+    pub fn verif_snapshot(&self, data: impl Fn(&N::Data) -> String) -> String {
+        let mut lines: Vec<String> = Vec::new();
+        {
+            let uf = self.unionfind.borrow();
+            for (i, pai) in uf.iter().enumerate() {
+                lines.push(format!("uf {} {}", i, verif_enc_applied_id(&pai.elem)));
+            }
+        }
+        for (i, c) in &self.classes {
+            lines.push(format!(
+                "class {} {} {} {}",
+                i.0,
+                enc_slots(&c.slots),
+                verif_enc_node(&c.syn_enode),
+                data(&c.analysis_data)
+            ));
+            for (sh, psn) in &c.nodes {
+                lines.push(format!(
+                    "node {} {} {} {}",
+                    i.0,
+                    verif_enc_node(sh),
+                    verif_enc_slotmap(&psn.elem),
+                    psn.src_id.0
+                ));
+            }
+            for sh in &c.usages {
+                lines.push(format!("usage {} {}", i.0, verif_enc_node(sh)));
+            }
+            for g in c.group.generators() {
+                lines.push(format!("gen {} {}", i.0, verif_enc_slotmap(&g.elem)));
+            }
+        }
+        for (sh, i) in &self.hashcons {
+            lines.push(format!("hc {} {}", verif_enc_node(sh), i.0));
+        }
+        for (sh, ty) in &self.pending {
+            lines.push(format!("pend {} {:?}", verif_enc_node(sh), ty));
+        }
+        lines.sort();
+        let mut out = String::new();
+        for l in lines {
+            writeln!(out, "{l}").unwrap();
+        }
+        out
+    }
+
+    pub fn verif_shape(&self, n: &L) -> (L, SlotMap) {
+        self.shape(n)
+    }
+
+    pub fn verif_variants(&self, n: &L) -> Vec<L> {
+        self.get_group_compatible_variants(n)
+    }
+
+    pub fn verif_find_enode(&self, n: &L) -> L {
+        self.find_enode(n)
+    }
+
+    pub fn verif_group_count(&self, i: Id) -> usize {
+        self.classes[&i].group.count()
+    }
+
+    pub fn verif_group_perms(&self, i: Id) -> Vec<SlotMap> {
+        self.classes[&i].group.all_perms().into_iter().map(|p| p.elem).collect()
+    }
+
+    pub fn verif_pending_len(&self) -> usize {
+        self.pending.len()
+    }
+}
